@@ -328,7 +328,7 @@ def op_strategy():
     ob = st.sampled_from(OBJS)
     sub = st.tuples(st.just("sub"), st.integers(0, 2), st.integers(1, 2), ob, st.booleans(), st.one_of(st.sampled_from([0, 1, 5, 30, 60, 120]), st.integers(0, 120))).map(list)
     cancel = st.tuples(st.just("cancel"), st.integers(0, 2), st.integers(1, 2), ob).map(list)
-    val = st.sampled_from([100, 100, 105, 109, 110, 111, 120, 95, 90, 89, 0, 1, 2, 3, 7, 200])
+    val = st.sampled_from([100, 100, 105, 109, 110, 111, 120, 95, 90, 89, 0, 1, 2, 3, 7, 200, 103, 106, 112, 114, 116, 119, 97, 94, 91, 84, 121, 126])
     pv = st.tuples(st.just("pv"), ob, val).map(list)
     burst = st.tuples(st.just("burst"), ob, st.lists(val, min_size=2, max_size=4)).map(list)
     flags = st.tuples(st.just("flags"), ob, st.lists(st.integers(0, 1), min_size=4, max_size=4)).map(list)
@@ -362,6 +362,10 @@ def run(spec, ctx):
                     ctx.check(dict(k="t", ops=base + [["sub", 1, 1, ob, conf, 10], ["sub", 2, 2, ob, not conf, 0], ["pv", ob, 170], ["cancel", 0, 1, ob], ["pv", ob, 100],
                                                       ["adv", 11.0], ["pv", ob, 140], ["read", 2]]))
                     ctx.check(dict(k="t", ops=base + [["cancel", 0, 1, ob], ["pv", ob, 177], ["sub", 0, 1, ob, conf, lt], ["pv", ob, 100], ["adv", 6.0], ["pv", ob, 133]]))
+                    # the value drifts by less than the increment, a renewal reports it; the next steps are measured from what the renewal said
+                    for drift in (106, 94, 109):
+                        for nxt in (112, 117, 100, 90, 103, 115, 119, 84):
+                            ctx.check(dict(k="t", ops=base + [["pv", ob, drift], ["sub", 0, 1, ob, conf, lt], ["pv", ob, nxt], ["pv", ob, drift], ["pv", ob, nxt + 1], ["read", 0]]))
                     # renewal matrix: every (old lifetime, new lifetime) pair, renewed early or late, observed before and after both expiry instants
                     for lt2 in (0, 5, 20, 120):
                         for wait in (1.0, 4.0):
